@@ -306,8 +306,12 @@ def _one_make(facts, t, fn, C, kind, case, ep_set, tag, findings, stats, undo_na
                                         "make %s: castling rights after castling are %s, expected both rights of the mover cleared"
                                         % (tag, show(val) if val is not None else "unchanged")))
             # the two castling keys must bracket the rights update
-            vers = sorted(x[1][1] for x in cast if isinstance(x[1], tuple))
-            if len(cast) != 2 or len(set(vers)) != 2:
+            vers = sorted(x[1][1] for x in cast if isinstance(x[1], tuple) and x[1][0] == "cr")
+            # key(old) ^ key(new): either two reads of the field around the store, or the old rights and the masked value that is stored
+            masked = [x[1] for x in cast if isinstance(x[1], tuple) and x[1][0] == "crm"]
+            ok_pair = len(cast) == 2 and len(set(vers)) == 2
+            ok_mask = len(cast) == 2 and len(vers) == 1 and len(masked) == 1 and masked[0][1] == vers[0] and masked[0][2] == want_mask
+            if not (ok_pair or ok_mask):
                 findings.append(Finding("hash", "make/%s/castling-key" % tag,
                                         "make %s: castling rights change but the hash is not updated with key(old)^key(new): %s" % (tag, cast)))
         else:
